@@ -14,6 +14,16 @@ slot + channel, LagControl lag inputs), control units partition the slot
 range, variant blocks.  SynthDef.__call__ is observed in NRT mode: the
 /s_new argument pairs in main.process().list are compared with the model's
 name mapping.
+
+Recovered failing wrap (25 % of the programs): a graph function calls
+SynthDef.wrap on a helper whose k-th (k >= 0 valid parameters first)
+parameter has an invalid rate annotation (float, 'krr', 1, ...), catches the
+ValueError and carries on, optionally wrapping a fallback helper with the
+same or other parameter names.  The model ignores the rejected helper, so
+ghost / duplicate / out-of-range name-table entries are refuted by the
+ordinary checks; additionally the definition bytes must equal those of the
+same program with the rejected helper removed.  A violation that the program
+without the helper does not show is keyed C04/failed-wrap-leaves-trace/<what>.
 """
 
 from vf.common import iter_cases, case_rng, h64, split, short_tb, tb_sites
@@ -46,12 +56,16 @@ MIN_COUNTERS = {
               'name_entries_checked': 5000, 'lag_inputs_checked': 500,
               'variant_blocks_checked': 200, 'calls_checked': 1000,
               'prepended_values_checked': 150, 'wrapped_functions': 300,
-              'lagcontrol_chunked_groups': 5},
+              'lagcontrol_chunked_groups': 5,
+              'failed_wraps_recovered': 300,
+              'failed_wrap_bytes_compared': 250},
     'thorough': {'programs_decoded': 60000, 'sinks_checked': 300000,
                  'name_entries_checked': 300000, 'lag_inputs_checked': 30000,
                  'variant_blocks_checked': 10000, 'calls_checked': 50000,
                  'prepended_values_checked': 8000, 'wrapped_functions': 15000,
-                 'lagcontrol_chunked_groups': 300},
+                 'lagcontrol_chunked_groups': 300,
+                 'failed_wraps_recovered': 10000,
+                 'failed_wrap_bytes_compared': 8000},
 }
 
 
@@ -90,7 +104,84 @@ def run_shard(spec, acc):
         run_case(acc, H, i, prog)
 
 
+class Collector:
+    """accumulator proxy: violations are collected (the caller decides the
+    final mechanism key); counters / cases / samples go to the real
+    accumulator unless quiet."""
+
+    def __init__(self, acc, quiet):
+        self.acc, self.quiet, self.viols = acc, quiet, []
+
+    def count(self, *a):
+        if not self.quiet:
+            self.acc.count(*a)
+
+    def case(self, *a, **k):
+        if not self.quiet:
+            self.acc.case(*a, **k)
+
+    def want_sample(self):
+        return not self.quiet and self.acc.want_sample()
+
+    def sample(self, *a, **k):
+        if not self.quiet:
+            self.acc.sample(*a, **k)
+
+    def violation(self, key, wit):
+        self.viols.append((key, wit))
+
+
+def trace_class(key, wit):
+    """one key for every name-table manifestation of a rejected helper that
+    left entries behind (ghost name, duplicate name, index outside the control
+    array = strict parser refuses the bytes); the manifestation goes into the
+    witness."""
+    tail = key[len('C04/'):]
+    if tail.startswith('name-table/') or (
+            tail == 'bytes-not-parseable'
+            and 'parameter name' in str(wit.get('error', ''))):
+        wit['manifestation'] = tail
+        return 'name-table'
+    return tail.replace('/', '-')
+
+
 def run_case(acc, H, i, prog):
+    """Programs with a 'recovered failing wrap' are decided twice: by the
+    model (which ignores the rejected helper) and differentially against the
+    same program without the rejected helper - a rejected helper leaves no
+    trace, so both must produce the same definition bytes."""
+    fw = any(f.get('fails') for f in prog['funcs'].values())
+    c = Collector(acc, False)
+    b = eval_prog(c, H, i, prog)
+    if not fw:
+        for key, wit in c.viols:
+            acc.violation(key, wit)
+        return
+    acc.count('failed_wrap_programs')
+    prog2 = G.without_failed_wraps(prog)
+    c2 = Collector(acc, True)
+    b2 = eval_prog(c2, H, i, prog2)
+    plain = {k for k, _ in c2.viols}
+    traced = False
+    for key, wit in c.viols:
+        if key in plain:
+            acc.violation(key, wit)          # present without the helper too
+        elif not traced:
+            traced = True
+            wit = dict(wit)
+            wit['key_without_context'] = key
+            acc.violation('C04/failed-wrap-leaves-trace/'
+                          + trace_class(key, wit), wit)
+    if not traced and b is not None and b2 is not None:
+        acc.count('failed_wrap_bytes_compared')
+        if b != b2:
+            acc.violation('C04/failed-wrap-leaves-trace/bytes-differ',
+                          {'case': i, 'program': G.describe(prog),
+                           'len_with': len(b), 'len_without': len(b2)})
+
+
+def eval_prog(acc, H, i, prog):
+    """build, decode and check one program; -> definition bytes or None"""
     # metadata specs are real ControlSpec objects; the model uses the default
     # read back from the object
     specs_obj = {n: H.ControlSpec(-30000, 30000, default=v)
@@ -103,11 +194,15 @@ def run_case(acc, H, i, prog):
     funcs = prog['funcs']
     ns = {}
     st = {'order': [], 'prepend_bad': [], 'prepend_checked': 0,
-          'received': {}, 'shape_bad': []}
+          'received': {}, 'shape_bad': [], 'rejected': [], 'not_rejected': []}
     pending_prepend = {}
 
     def body(fname, loc):
         f = funcs[fname]
+        if f.get('fails'):
+            # the library accepted the invalid annotation: no verdict
+            st['not_rejected'].append(fname)
+            return None
         st['order'].append(fname)
         # prepended parameters must be exactly the objects passed
         exp = pending_prepend.pop(fname, None)
@@ -132,7 +227,7 @@ def run_case(acc, H, i, prog):
                 H.iou.Out.ar(tags[p['name']], v)
             else:
                 H.iou.Out.kr(tags[p['name']], v)
-        for child in f['wraps']:
+        def do_wrap(child):
             c = funcs[child]
             vals = []
             for pv in c['prepend_values']:
@@ -150,6 +245,19 @@ def run_case(acc, H, i, prog):
                 H.SynthDef.wrap(ns[child])
             else:
                 H.SynthDef.wrap(ns[child], rates)
+
+        for child in f['wraps']:
+            if funcs[child].get('fails'):
+                # recovered failing wrap: catch the rejection, carry on
+                try:
+                    do_wrap(child)
+                except ValueError as e:
+                    st['rejected'].append((child, str(e)[:80]))
+                pending_prepend.pop(child, None)
+                if funcs[child].get('fallback'):
+                    do_wrap(funcs[child]['fallback'])
+            else:
+                do_wrap(child)
         return None
 
     ns['__body__'] = body
@@ -184,14 +292,19 @@ def run_case(acc, H, i, prog):
     except Exception as e:
         H.main._current_synthdef = None
         viol(f'C04/build-raises/{exc_site(e)}', exception=short_tb(e))
-        return
+        return None
+    if st['not_rejected']:
+        acc.count('failed_wrap_not_rejected_no_verdict')
+        return None
+    acc.count('failed_wraps_recovered', len(st['rejected']))
+    raw = bytes(sd.as_bytes())
     try:
-        d = H.scgf.parse(bytes(sd.as_bytes()))
+        d = H.scgf.parse(raw)
     except Exception as e:
         viol('C04/bytes-not-parseable', error=str(e)[:300])
-        return
+        return raw
     acc.count('programs_decoded')
-    acc.count('wrapped_functions', len(funcs) - 1)
+    acc.count('wrapped_functions', len(MC.invocation_order(prog)) - 1)
     acc.count('parameters', len(lay['order']))
     layout_desc = {n: (s.index, s.size, s.rate, s.lags if any(s.lags) else None)
                    for n, s in slots.items()}
@@ -210,7 +323,7 @@ def run_case(acc, H, i, prog):
     # -- parameter array -------------------------------------------------
     if len(d.params) != lay['P']:
         viol('C04/param-count', decoded=len(d.params), expected=lay['P'])
-        return
+        return raw
     for n, s in slots.items():
         for ch in range(s.size):
             if d.params[s.index + ch] != MC.f32(s.defaults[ch]):
@@ -301,13 +414,13 @@ def run_case(acc, H, i, prog):
         score = H.main.process().list
     except Exception as e:
         viol(f'C04/call-raises/{exc_site(e)}', exception=short_tb(e))
-        return
+        return raw
     snew = [m for b in score for m in b[1:]
             if isinstance(m, (list, tuple)) and m and m[0] == '/s_new'
             and m[1] == prog['name']]
     if len(snew) != 1:
         viol('C04/call/no-s_new', score=repr(score)[:400])
-        return
+        return raw
     pairs = list(snew[0][5:])
     got = list(zip(pairs[0::2], pairs[1::2]))
     exp = MC.call_mapping(prog, call['positional'], call['keywords'])
@@ -338,6 +451,7 @@ def run_case(acc, H, i, prog):
                     'decoded_controls': [repr(u) for u in d.units
                                          if u.cls in CTL],
                     's_new': repr(snew[0])[:300]})
+    return raw
 
 
 def check_wire(d, s, ch, w, acc):
